@@ -4,10 +4,12 @@ import ZvbiModel.Demux.Model
 -/
 namespace Zvbi.Demux
 
+variable {cfg : SrcCfg}
+
 /-- with `skipEmpty`, `demux_pes_packet_frame` returns VBI_ERR_CALLBACK only with lines to deliver -/
 theorem pesPacketFrame_callback_lines : ∀ (n : Nat) (cb : Bool) (fs : FS) (d : Bytes),
-    (pesPacketFrame n cb true fs d).2.2.1 = .callback →
-    (pesPacketFrame n cb true fs d).1.frame.lines ≠ [] := by
+    (pesPacketFrame cfg n cb true fs d).2.2.1 = .callback →
+    (pesPacketFrame cfg n cb true fs d).1.frame.lines ≠ [] := by
   intro n
   induction n with
   | zero => intro cb fs d h; simp [pesPacketFrame] at h
@@ -17,7 +19,7 @@ theorem pesPacketFrame_callback_lines : ∀ (n : Nat) (cb : Bool) (fs : FS) (d :
     dsimp only
     generalize (if fs.newFrame = true then
       ({ fs with frame := resetFrame fs.frame, framePts := fs.packetPts, newFrame := false } : FS) else fs) = fs1
-    rcases extract fs1.frame d with ⟨f, r, rest⟩
+    rcases extract cfg fs1.frame d with ⟨f, r, rest⟩
     cases r with
     | done => intro h; simp at h
     | err => intro h; simp at h
@@ -48,8 +50,8 @@ theorem pesIter_callback_lines (cfg : SrcCfg) (hse : cfg.corSkipsEmpty = true) (
     · rename_i hl
       rw [if_neg hl] at h
       rw [hse] at h ⊢
-      have := pesPacketFrame_callback_lines 3 cb { fs with frame := { fs.frame with nDu := 0 } } (win.take la)
-      rcases hp : pesPacketFrame 3 cb true { fs with frame := { fs.frame with nDu := 0 } } (win.take la)
+      have := pesPacketFrame_callback_lines (cfg := cfg) 3 cb { fs with frame := { fs.frame with nDu := 0 } } (win.take la)
+      rcases hp : pesPacketFrame cfg 3 cb true { fs with frame := { fs.frame with nDu := 0 } } (win.take la)
         with ⟨fs1, outs, r, rest⟩
       rw [hp] at h this
       cases r with
@@ -72,7 +74,7 @@ theorem pesIter_stop_ne_needMore (cfg : SrcCfg) (cb : Bool) (sk la : Nat) (fs : 
   split
   · split
     · simp
-    · rcases pesPacketFrame 3 cb cfg.corSkipsEmpty { fs with frame := { fs.frame with nDu := 0 } } (win.take la)
+    · rcases pesPacketFrame cfg 3 cb cfg.corSkipsEmpty { fs with frame := { fs.frame with nDu := 0 } } (win.take la)
         with ⟨a, b, r, c⟩
       cases r <;> simp
   · repeat' split
